@@ -20,6 +20,8 @@ from ..engine import Query
 from ..lib.usb2 import (PacketSpy, crc5_serial, crc16_serial_step, crc16_wire, utmi_rx_contract,
                         PID_SETUP, PID_IN, PID_OUT, PID_PING)
 from .c05 import spec_cycles
+from ..lib.host import SlottedHost, TxSpy, slot_cubes, KIND_NONE, KIND_SETUP, KIND_IN, KIND_OUT, KIND_SOF, KIND_PING
+from ..lib.device import make_device, tie_device
 
 PROP = "C06"
 ENCODED = ["luna/gateware/usb/usb2/request.py: USBSetupDecoder", "luna/gateware/usb/usb2/packet.py: "
@@ -38,7 +40,8 @@ ASSUMPTIONS = [
     "the spy request handler never claims the request (the stall-only fallback handler is active)",
     "`received` may follow the end of the data packet by 1..4 cycles (implementation latency is not part of the statement)",
 ]
-BOUNDS = "BMC from reset: free-timing layer K=24/28 (any rx_active/rx_valid/rx_data history); gapless layer " \
+BOUNDS = "Transaction layer (cubes): 2 (quick) / 3 (thorough) slotted transactions of pinned kind, all contents symbolic, " \
+         "all five clauses.  BMC from reset: free-timing layer K=24/28 (any rx_active/rx_valid/rx_data history); gapless layer " \
          "(rx_valid follows rx_active without byte gaps) K=34/44 which fits an arbitrary prefix packet of up to ~12 bytes " \
          "(any PID, any CRC, aborted or not) followed by a complete SETUP transaction and its ACK at high speed"
 OUTSIDE = "prefixes longer than the depth allows; low speed; SETUP tokens to non-control endpoints; full-speed ACK timing " \
@@ -335,23 +338,140 @@ class SetupHarness(Harness):
         return dict(address=rng.randrange(128), speed=rng.randrange(2))
 
 
+class SetupSlotHarness(Harness):
+    """Transaction-level layer: a real USBDevice with one control endpoint (stall-only fallback + observing spy handler)
+    driven by the slotted symbolic host.  Every slot is one transaction of a pinned kind (cube) with symbolic address,
+    endpoint, data bytes, DATA PID and OUT length; judged at the end of each slot."""
+
+    def __init__(self, nslots):
+        super().__init__()
+        self.spy = Spy()
+        self.utmi, self.dev, self.ep0, _ = make_device(ep0_mps=8, std=False, extra_handlers=(self.spy,))
+        self.host = SlottedHost(self, nslots, slot_len=32, ack_t=25, max_out=2, ep_bits=2)
+        names = ["missed", "spurious", "fields", "ack_missing", "ack_spurious"]
+        self.v = {n: self.viol("slot_" + n) for n in names}
+        self.c = {n: self.cover("slot_" + n) for n in ["received_last", "received_after_corrupt", "two_setups"]}
+        self.a = {n: self.assume("slot_" + n) for n in ["legal", "no_setup_other_ep"]}
+
+    def elaborate(self, platform):
+        m = Module()
+        h, u, dev = self.host, self.utmi, self.dev
+        m.submodules.dev = dev
+        h.build(m, "usb")
+        spy = TxSpy(m, "usb", h, u.tx_valid, u.tx_data, nbytes=2, name="tx")
+        h.add_in_ack(m, "usb", spy.is_data & ~u.tx_valid)
+        tie_device(m, u, dev, h)
+        setup = self.spy.interface.setup
+        # per-slot bookkeeping
+        nrecv = Signal(2, name="g_nrecv")
+        lat = Signal(64, name="g_lat_fields")
+        fields = Cat(setup.recipient, setup.type, setup.is_in_request, setup.request, setup.value, setup.index,
+                     setup.length)
+        with m.If(h.slot_end):
+            m.d.usb += nrecv.eq(0)
+        with m.Elif(setup.received):
+            with m.If(nrecv != 3):
+                m.d.usb += nrecv.eq(nrecv + 1)
+            with m.If(nrecv == 0):
+                m.d.usb += lat.eq(fields)
+        # the device address stays 0 (no SET_ADDRESS handler in this device)
+        for_us = (h.cur_addr == 0) & (h.cur_ep == 0)
+        valid_setup = Signal(name="g_valid_setup")
+        m.d.comb += valid_setup.eq((h.cur_kind == KIND_SETUP) & ~h.cur_flag & for_us)
+        judge = Signal(name="g_judge")
+        m.d.comb += judge.eq(h.slot_end & ~h.done)
+        sent_ack = spy.is_hsk & (spy.pid == 0xD2) & (spy.count == 1) & (spy.packets == 1)
+        any_ack = spy.is_hsk & (spy.pid == 0xD2)
+        # kinds whose handshake is not the subject of this property (answered by the endpoint's data path)
+        not_judged = (h.cur_kind == KIND_OUT) | (h.cur_kind == KIND_PING)
+        setups_other_ep = Const(0)
+        for i in range(h.n):
+            setups_other_ep = setups_other_ep | ((h.kind[i] == KIND_SETUP) & (h.addr[i] == 0) & (h.ep[i] != 0))
+        m.d.comb += [
+            self.a["legal"].eq(h.legal),
+            self.a["no_setup_other_ep"].eq(~setups_other_ep),
+            self.v["missed"].eq(judge & valid_setup & (nrecv == 0)),
+            self.v["spurious"].eq(judge & (Mux(valid_setup, nrecv > 1, nrecv != 0))),
+            self.v["fields"].eq(judge & valid_setup & (nrecv != 0) & (lat != h.cur_data)),
+            self.v["ack_missing"].eq(judge & valid_setup & ~sent_ack),
+            self.v["ack_spurious"].eq(judge & ~valid_setup & ~not_judged & any_ack),
+        ]
+        seen_corrupt = Signal(name="g_seen_corrupt")
+        seen_setup = Signal(name="g_seen_setup")
+        with m.If(judge & (h.cur_kind == KIND_SETUP) & h.cur_flag & for_us):
+            m.d.usb += seen_corrupt.eq(1)
+        with m.If(judge & valid_setup & (nrecv == 1)):
+            m.d.usb += seen_setup.eq(1)
+        last = h.slot == h.n - 1
+        m.d.comb += [
+            self.c["received_last"].eq(judge & last & valid_setup & (nrecv == 1) & sent_ack),
+            self.c["received_after_corrupt"].eq(judge & valid_setup & (nrecv == 1) & seen_corrupt),
+            self.c["two_setups"].eq(judge & valid_setup & (nrecv == 1) & seen_setup),
+        ]
+        return m
+
+    def stimulus(self, rng, t, consts):
+        return dict(consts)
+
+    def const_stimulus(self, rng):
+        d = {}
+        for i in range(self.host.n):
+            k = rng.choice([KIND_SETUP, KIND_SETUP, KIND_IN, KIND_OUT, KIND_NONE, KIND_SOF, KIND_PING])
+            d.update({f"s{i}_kind": k, f"s{i}_ep": 0 if k == KIND_SETUP else rng.randrange(4),
+                      f"s{i}_addr": 0 if rng.random() < 0.8 else rng.randrange(128),
+                      f"s{i}_data": rng.getrandbits(64), f"s{i}_flag": int(rng.random() < 0.3),
+                      f"s{i}_dpid": rng.randrange(2), f"s{i}_olen": rng.randrange(3)})
+        return d
+
+
+FAST = ["fields", "ack_early", "ack_missing"]          # decided on the free-timing layers within minutes
+HARD = ["missed", "spurious", "ack_spurious"]          # need the reference CRC16 over free packet shapes: hours
+
+
 def queries(tier):
     qs = []
+    quick = tier == "quick"
     free = lambda: SetupHarness(gapless=False)
     gapless = lambda: SetupHarness(gapless=True)
     hs = {"*": {"speed": 0}}
-    Kf = 24 if tier == "quick" else 28
-    qs.append(Query("bmc_free", free, Kf, timeout=1500, hints=hs,
+    Kf = 24 if quick else 28
+    qs.append(Query("bmc_free", free, Kf, timeout=1500, hints=hs, asserts=FAST,
                     covers=["received", "ack", "setup_then_in"],
                     desc=f"free UTMI timing, K={Kf}: one complete SETUP transaction with arbitrary byte gaps"))
-    Kg = 34 if tier == "quick" else 44
-    qs.append(Query("bmc_gapless", gapless, Kg, timeout=1500, hints=hs,
+    Kg = 34 if quick else 44
+    qs.append(Query("bmc_gapless", gapless, Kg, timeout=1500, hints=hs, asserts=FAST,
                     covers=["received", "ack", "after_bad_crc", "after_short_data", "after_aborted_setup", "wrong_length"],
                     desc=f"no byte gaps inside packets, K={Kg}: arbitrary prefix packet(s) then a SETUP transaction"))
-    if tier == "thorough":
+    # transaction-level layer (cubes): exactly-once decoding, silence for everything else, after every kind of prefix
+    s2 = lambda: SetupSlotHarness(2)
+    s3 = lambda: SetupSlotHarness(3)
+    SLOT = ["slot_missed", "slot_spurious", "slot_fields", "slot_ack_missing", "slot_ack_spurious"]
+    for name, layer in slot_cubes(2, "SsIiOoNGFf"):
+        if quick and name[1] not in "Ss":
+            continue
+        qs.append(Query(f"bmc_2slots_{name}", s2, 66, layer=layer, asserts=SLOT, covers=[], timeout=900, split=False,
+                        desc=f"transactions {name} (address, endpoint, data, PIDs, OUT length symbolic): the SETUP is "
+                             "reported exactly once with its 8 bytes and ACKed; nothing else is"))
+    hints = {"slot_received_last": {}, "slot_received_after_corrupt": {"s0_kind": KIND_SETUP, "s0_flag": 1},
+             "slot_two_setups": {"s0_kind": KIND_SETUP, "s0_flag": 0}}
+    for hd in hints.values():
+        for i in range(2):
+            hd.setdefault(f"s{i}_kind", KIND_SETUP); hd.setdefault(f"s{i}_flag", 0)
+            hd.update({f"s{i}_addr": 0, f"s{i}_ep": 0, f"s{i}_olen": 0})
+    qs.append(Query("covers_2slots", s2, 66, asserts=[], hints=hints, timeout=900, split=False,
+                    covers=["slot_received_last", "slot_received_after_corrupt", "slot_two_setups"], desc="witnesses"))
+    if not quick:
+        for name, layer in slot_cubes(3, "SsOoiN"):
+            if name[2] in "Ss":
+                qs.append(Query(f"bmc_3slots_{name}", s3, 98, layer=layer, asserts=SLOT, covers=[], timeout=1800,
+                                split=False, desc=f"transactions {name}"))
         qs.append(Query("bmc_gapless_fs", gapless, 50, timeout=1500, layer={"speed": 1},
-                        asserts=["ack_missing", "ack_spurious", "ack_early", "missed"], covers=["ack_fs"],
+                        asserts=["ack_missing", "ack_early"], covers=["ack_fs"],
                         desc="full speed, gapless, K=50: ACK exactly inside the FS response window"))
-    qs.append(Query("cosim_free", free, 0, kind="cosim", cosim_cycles=300 if tier == "quick" else 3000))
-    qs.append(Query("cosim_gapless", gapless, 0, kind="cosim", cosim_cycles=300 if tier == "quick" else 3000))
+        qs.append(Query("bmc_gapless_hard", gapless, 34, timeout=3000, hints=hs, asserts=HARD, covers=[], required=False,
+                        desc="best effort: exactly-once / no spurious report over arbitrary packet shapes (the monitor's "
+                             "CRC16 over free framing; usually undecided within the time limit)"))
+    qs.append(Query("cosim_free", free, 0, kind="cosim", cosim_cycles=300 if quick else 3000))
+    qs.append(Query("cosim_gapless", gapless, 0, kind="cosim", cosim_cycles=300 if quick else 3000))
+    qs.append(Query("cosim_slots", s3, 0, kind="cosim", cosim_cycles=100 if quick else 400))
     return qs
